@@ -11,8 +11,10 @@ import (
 var verifDurations = []float64{0.25, 0.5, 1, 1.5, 2, 3, 4, 1.0 / 3, 2.0 / 3, 0.1}
 
 // verifDurRat are the same values as fractions, followed by some whose tick length is not a
-// whole number (1/9, 1/7, 5/11, 2/9): none is exactly halfway, so round(960*v) is unique.
-var verifDurRat = [][2]uint32{{1, 4}, {1, 2}, {1, 1}, {3, 2}, {2, 1}, {3, 1}, {4, 1}, {1, 3}, {2, 3}, {1, 10}, {1, 9}, {1, 7}, {5, 11}, {2, 9}}
+// whole number (1/9, 1/7, 5/11, 2/9) and three around the shortest lengths: none is exactly halfway, so round(960*v) is unique.
+var verifDurRat = [][2]uint32{{1, 4}, {1, 2}, {1, 1}, {3, 2}, {2, 1}, {3, 1}, {4, 1}, {1, 3}, {2, 3}, {1, 10}, {1, 9}, {1, 7}, {5, 11}, {2, 9},
+	// around the smallest lengths: 960/1919 rounds to 1 tick, 960/1921 and 960/2000 to 0 ticks
+	{1, 1919}, {1, 1921}, {1, 2000}}
 
 // verifDur picks the i-th duration: the value handed to the writer and the tick count the
 // property demands for it, round(960*num/den) in integer arithmetic — independent of the
